@@ -12,6 +12,8 @@ has, and turns the live objects of an earlier call into the objects of a later o
                     "share": bool,                      one object per distinct geometry / pool tag
                     "xuuid": bool,                      the k-th prediction of a clip carries the uuid of its k-th annotation
                     "uuids": "random" | "stable"}       stable: uuid5 of (side, clip id, event id)
+    inp["tagstyle"]: how the Tag / Term objects of the vocabulary, the annotations and the predictions are made
+                     (harness/c08_tagvariants.py: subclass instances, model_validate, model_copy, shared / borrowed Term objects)
 
 The content (what the Lean model is told) never depends on the style: numbers are converted from the same exact
 rationals, uuids are never compared.
@@ -26,6 +28,7 @@ import uuid as _uuid
 
 from . import evalgen as G
 from . import tagpool as TP
+from . import c08_tagvariants as TV
 from .core import jkey
 from .rat import frac
 
@@ -81,6 +84,14 @@ class Builder:
         self._geoms = dict(geoms or {})       # gkey -> live geometry object (objects of an earlier call: reused)
         self._tags = dict(tags or {})         # pool position -> live Tag
         self._events = {}
+        # construction variants of the Tag / Term objects, per role (harness/c08_tagvariants.py)
+        self.tagstyle = TV.normalise(inp.get("tagstyle"))
+        if self.style.get("via") == "json" or self.stable:
+            # tags that come out of JSON text are plain Tag / Term objects whatever the style says, and in a history
+            # live Tag objects of earlier calls are kept: the Term class must be the same for all tags of a call
+            # (c08_tagvariants: `termcls`), so it stays the plain one in both situations
+            self.tagstyle.pop("termcls", None)
+        self.maker = TV.Maker(TP.descriptors(inp), self.tagstyle, inp.get("vocab") or ()) if self.tagstyle else None
 
     # ---- leaves
     def cls(self, c):
@@ -103,19 +114,22 @@ class Builder:
             self._geoms[k] = obj
         return obj
 
-    def tag(self, t):
+    def tag(self, t, role="ann"):
         if t in self._tags:
             return self._tags[t]
-        obj = TP.fresh(self.descs[t]) if self.descs is not None else G.tag(t)
+        if self.maker is not None:
+            obj = self.maker.make(role, t)
+        else:
+            obj = TP.fresh(self.descs[t]) if self.descs is not None else G.tag(t)
         if self.share:
             self._tags[t] = obj
         return obj
 
     def ptags(self, ts):
-        return [self.data.PredictedTag(tag=self.tag(t), score=_number(s, self.num)) for t, s in ts]
+        return [self.data.PredictedTag(tag=self.tag(t, "pred"), score=_number(s, self.num)) for t, s in ts]
 
     def atags(self, ts):
-        return [self.tag(t) for t in ts]
+        return [self.tag(t, "ann") for t in ts]
 
     def sound_event(self, side, cid, e):
         kw = {}
@@ -160,9 +174,9 @@ class Builder:
             return {"type": g["type"], "coordinates": _plain(_nest(g["coordinates"], self.num, "list"))}
         return {"type": "BoundingBox", "coordinates": _plain(_nest(list(g), self.num, "list"))}
 
-    def tag_spec(self, t):
+    def tag_spec(self, t, role="ann"):
         if not self._json():
-            return self.tag(t)
+            return self.tag(t, role)
         if self.descs is None:
             return {"key": TP.LEGACY[t]["key"], "value": TP.LEGACY[t]["value"]}
         d = self.descs[t]
@@ -193,7 +207,7 @@ class Builder:
         for e in c.get("events", []):
             d = {"sound_event": self.se_spec("p" if pred else "a", c["clip"], e)}
             if pred:
-                d["tags"] = [{"tag": self.tag_spec(t), "score": _plain(_number(s, self.num))} for t, s in e["tags"]]
+                d["tags"] = [{"tag": self.tag_spec(t, "pred"), "score": _plain(_number(s, self.num))} for t, s in e["tags"]]
                 d["score"] = _plain(_number(e.get("conf", "1"), self.num))
             else:
                 d["tags"] = [self.tag_spec(t) for t in e["tags"]]
@@ -202,7 +216,7 @@ class Builder:
             evs.append(d)
         out = {"clip": self._inst(G.clip(c["clip"])), "sound_events": evs}
         if pred:
-            out["tags"] = [{"tag": self.tag_spec(t), "score": _plain(_number(s, self.num))} for t, s in c.get("tags", [])]
+            out["tags"] = [{"tag": self.tag_spec(t, "pred"), "score": _plain(_number(s, self.num))} for t, s in c.get("tags", [])]
         else:
             out["tags"] = [self.tag_spec(t) for t in c.get("tags", [])]
         if self.stable:
@@ -273,7 +287,7 @@ def build(inp, style=None, geoms=None, tags=None):
     for c, o in zip(inp["annotations"], anns):
         by[c["clip"]] = (c, o)
     preds = [b.clip_prediction(c, by.get(c["clip"])) for c in inp["predictions"]]
-    vocab = [b.tag(t) for t in inp["vocab"]]
+    vocab = [b.tag(t, "vocab") for t in inp["vocab"]]
     return {"kind": "detection", "inp": inp, "style": b.style, "preds": b.container(preds), "anns": b.container(anns),
             "tags": b.container(vocab), "pos": positions(inp, preds, anns), "tagobjs": dict(b._tags)}
 
@@ -422,7 +436,7 @@ def retarget(args, inp, how):
     if same_pool:
         for t, o in zip(old["vocab"], args["tags"]):
             old_tags.setdefault(t, o)
-    new_tags = [old_tags[t] if t in old_tags else b.tag(t) for t in inp["vocab"]]
+    new_tags = [old_tags[t] if t in old_tags else b.tag(t, "vocab") for t in inp["vocab"]]
     cont = args["tags"]
     if how == "inplace" and isinstance(cont, list):
         cont[:] = new_tags
